@@ -16,6 +16,8 @@ ISSUER = {'idp1': env.IDP1, 'idp2': env.IDP2, 'unknown': 'urn:verif:unknown-idp'
 
 
 def metadata(descriptors, layout):
+    if layout == 'noStore':
+        return []
     mds = [env.idp_metadata(env.IDP2, keys=[('kIdp2', 'signing')], sso=env.IDP2_SSO)]
     if layout != 'absent':
         mds.append(env.idp_metadata(env.IDP1, keys=[(k, None if u == 'none' else u) for k, u in descriptors]))
